@@ -87,7 +87,7 @@ def run(rep):
                 rep.check(not gs, "C06-R8", b.root if hasattr(b, "root") else d, "mirror-independent-of-waiter:%s.%s" % (fld.replace("upvar:", ""), c.name),
                           "the client records broker-side state (%s.%s) only if the local future still waits for the reply (%s): when that future was dropped the broker's view and the client's diverge and a later message for that entity stops the client" % (fld, c.name, gs[:1]),
                           line=c.line, detail={"guards": gs})
-    rep.floor("C06-R8", "state mutations in client message handlers", n8, 32)
+    rep.floor("C06-R8", "state mutations in client message handlers", n8, 16)
 
     # ---- R9 assertions about the client's own registries are made only under the broker's positive answer -----
     # Sibling reply handlers assert the presence / absence of a registry entry only after the broker answered positively
@@ -112,7 +112,7 @@ def run(rep):
             rep.check(bool(pos), "C06-R9", b.def_, "registry-assertion-under-positive-answer:%s" % ".".join(re.search(r"self\.(\w+)\.(\w+)\(", reg[0]).groups()),
                       "this handler asserts something about the client's own registry (%s) whatever the broker answered; its siblings do so only under a positive answer. A drop-driven request that carried an unconfirmed belief (e.g. a channel end marked claimed before the claim failed) makes the client panic" % reg[0][:120],
                       line=c.line, detail={"guards": gs[-4:]})
-    rep.floor("C06-R9", "registry assertions in reply handlers with a result", n9, 6)
+    rep.floor("C06-R9", "registry assertions in reply handlers with a result", n9, 4)
 
     # ---- R1 direction tables -----------------------------------------------------------------------
     rep.check(bd is not None and not binfo["wildcard"] and len(bd) >= 63, "C06-R1", bhm.def_, "broker-dispatch-exhaustive", "the broker's dispatch must name all message kinds without wildcard", detail={"kinds": len(bd or {})})
@@ -199,7 +199,7 @@ def run(rep):
                           detail={"reply": reply, "variant": v, "excluded_by": why})
             else:
                 rep.ok("C06-R2", "%s:variant:%s::%s" % (hb.def_, reply, v), {"accepted": True, "switch_found": matched})
-    rep.floor("C06-R2", "constructed result variants", n, 40)
+    rep.floor("C06-R2", "constructed result variants", n, 24)
 
     # client-side preconditions behind the two NotSupported exclusions
     ps = prog.find(r"^aldrin::low_level::proxy::Proxy::subscribe_all::\{closure#0\}$")
@@ -297,7 +297,7 @@ def run(rep):
                     # exits not passing a flush marker must be error exits (the `?` of the send itself or later errors)
                     pass
         rep.check(ok, "C06-R3", b.def_, "flush-after-send:%s" % "|".join(sorted(s.kinds)), "a successful transport send must be followed by flush_transport = true (or an explicit flush)", line=s.line, detail={"markers": after})
-    rep.floor("C06-R3", "client sends with flush tracking", n, 38)
+    rep.floor("C06-R3", "client sends with flush tracking", n, 20)
     sm = prog.one(r"^aldrin_broker::conn::Connection::<T>::send_message::\{closure#0\}$")
     snd = [c for c in sm.calls if c.name == "send" and "AsyncTransport" in (c.callee or "")]
     sets = [i for i in sorted(sm.live_blocks()) for st in sm.blocks[i]["s"] if st["d"][-1:] == [".flush_transport"] and (mir.op_const(st["r"]["o"][0]) if st["r"]["k"] == "use" else None or {}).get("repr") == "true"]
